@@ -17,6 +17,9 @@ Tie:  most of this property lives in the runtime (fork, dill, mmap), so the tie 
       (the state installed on edge k is the state an independent per-edge solve gives for edge k).
       A library-level observation backs the assumption named in the trusted base: real
       `multiprocess.Pool.map/imap` runs whose *observed* completion order is fed to `Pool.gather`.
+      Paging file names: for the paged in-process run of every receiver the files left in the working directory and
+      the file behind every array are compared with `SrModel.PageNames` (tube number = position in Receiver.tubes,
+      `<i>_<field><suffix>.dat`), and no two (tube, dictionary, field) triples may share a file.
 Search: the same differential runs (every difference is a failing input: receiver, configuration, array).
 Known: F24 — `page_results=True` + any pool stage that ships a tube already holding results dies with
       `TypeError: cannot pickle 'mmap.mmap' object` (signature c08:paging-pool-pickle).
@@ -488,9 +491,138 @@ def _run_pipeline(desc, cfg, reference=False):
         if cfg["page"]:
             out["paged_types"] = sorted({type(v).__name__ for t in model.tubes for dn in DICTS
                                          for v in getattr(t, dn).values()})
+            out["page_files"], out["page_layout"] = page_record(model)
         del mgr, model, tsolver, ssolver, sysolver, dmodel
         gc.collect()      # paged arrays keep their files open until collected
     return out
+
+
+# ---------------------------------------------------------------------------
+# paging file names
+# ---------------------------------------------------------------------------
+PAGE_SIG = "c08:page-files"
+PAGE_MODS = ["SrModel.Pool", "SrModel.PageNames"]
+DICT_CODE = {"results": "r", "quadrature_results": "q", "axial_results": "a"}
+# the arrays srlife creates with add_blank_axial_results (thermal.ThermohydraulicsThermalSolver); every other axial
+# array comes from add_axial_results.  For results / quadrature_results both writers use one suffix.
+AXIAL_BLANK = ("fluid_temperature", "fluid_velocity")
+
+
+def _backing_file(v):
+    fn = getattr(v, "filename", None) if isinstance(v, np.memmap) else None
+    return None if fn is None else os.path.basename(str(fn))
+
+
+def page_record(model):
+    """(files in the working directory, per tube: panel, position in the panel, index in model.tubes, page_prefix,
+    and per dictionary [field name, file behind the array or None]) -- plain lists and strings"""
+    flat = list(model.tubes)
+    layout = []
+    for p, panel in enumerate(model.panels.values()):
+        for k, tube in enumerate(panel.tubes.values()):
+            idx = [j for j, t in enumerate(flat) if t is tube]
+            layout.append({"panel": p, "pos": k, "index": idx[0] if len(idx) == 1 else -1, "prefix": str(tube.page_prefix),
+                           "fields": {dn: [[str(name), _backing_file(v)] for name, v in getattr(tube, dn).items()]
+                                      for dn in DICTS}})
+    return sorted(os.listdir(".")), layout
+
+
+def hexs(s):
+    return s.encode("utf-8").hex() or "-"
+
+
+def unhexs(s):
+    return "" if s == "-" else bytes.fromhex(s).decode("utf-8")
+
+
+def page_check(desc, run_, drv):
+    """problems (list of str) of the paging files of one paged run, number of (tube, dictionary, field) triples"""
+    files, layout = run_.get("page_files"), run_.get("page_layout")
+    if files is None or layout is None:
+        return ["the paged run recorded no files (stages: %s)" % run_.get("stages")], 0
+    sizes = [len(p["tubes"]) for p in desc["panels"]]
+    probs, triples, lines = [], [], []
+    if sorted((t["panel"], t["pos"]) for t in layout) != [(p, k) for p, n in enumerate(sizes) for k in range(n)]:
+        probs.append("tubes of the receiver %s are not those of the description %s" % (
+            [(t["panel"], t["pos"]) for t in layout], sizes))
+        return probs, 0
+    for t in layout:
+        for dn in DICTS:
+            for name, real in t["fields"][dn]:
+                code = DICT_CODE[dn] + ("b" if dn == "axial_results" and name in AXIAL_BLANK else "")
+                triples.append((t, dn, name, real))
+                lines.append("pg %s %d %d %s %s" % (",".join(map(str, sizes)), t["panel"], t["pos"], code, hexs(name)))
+    answers = drv.ask(lines)
+    expected, behind = set(), {}
+    for (t, dn, name, real), ans in zip(triples, answers):
+        where = "tube %d of panel %d (index %d in Receiver.tubes, page_prefix %r) %s[%r]" % (
+            t["pos"], t["panel"], t["index"], t["prefix"], dn, name)
+        try:
+            want = unhexs(ans)
+        except ValueError:
+            probs.append("%s: the model answers %r" % (where, ans))
+            continue
+        if real is None:
+            probs.append("%s is not backed by a file although paging is on (model: %r)" % (where, want))
+            continue
+        expected.add(want)
+        behind.setdefault(real, []).append(where)
+        if real != want:
+            probs.append("%s is stored in %r, the model says %r" % (where, real, want))
+    # directly, without the model: different triples, different files
+    for real, ws in sorted(behind.items()):
+        if len(ws) > 1:
+            probs.insert(0, "%d different arrays share the file %r: %s" % (len(ws), real, "; ".join(ws[:3])))
+    if set(files) != expected:
+        probs.append("files left by the run differ from the model's: only on disk %s, only in the model %s" % (
+            sorted(set(files) - expected)[:4], sorted(expected - set(files))[:4]))
+    return probs, len(triples)
+
+
+PROBE_NAMES = ["x", "x ", "1_x", "x_node", "x_quad.dat", "x _axial", "\u00e9 \u03c3_\u03b8", "0"]
+
+
+def writer_probe(drv):
+    """both writers of the three dictionaries on a stand-alone paged tube, awkward field names: file behind the array
+    == model.  Returns (problems, number of arrays, whether add_axial_results(f) and add_blank_axial_results(f + ' ')
+    opened the same file)"""
+    receiver = mods()[0]
+    rows, lines = [], []
+    with in_tempdir(True):
+        tube = receiver.Tube(5.0, 0.5, 2.5, 3, 4, 2)
+        tube.set_times(np.array([0.0, 1.0]))
+        tube.set_paging(True, 7)
+        sh = (2, 3, 4, 2)
+        for name in PROBE_NAMES:
+            for code in ("r", "rb", "q", "qb", "a", "ab"):
+                if code == "r":
+                    tube.add_results(name, np.zeros(sh))
+                elif code == "rb":
+                    tube.add_blank_results(name, sh)
+                elif code == "q":
+                    tube.add_quadrature_results(name, np.zeros(sh))
+                elif code == "qb":
+                    tube.add_blank_quadrature_results(name, sh)
+                elif code == "a":
+                    tube.add_axial_results(name, np.zeros((2, 2)))
+                else:
+                    tube.add_blank_axial_results(name)
+                dn = {"r": "results", "q": "quadrature_results", "a": "axial_results"}[code[0]]
+                rows.append((name, code, _backing_file(getattr(tube, dn)[name])))
+                lines.append("pg 3,5 1 4 %s %s" % (code, hexs(name)))
+        del tube
+        gc.collect()
+    answers = drv.ask(lines)
+    probs = []
+    for (name, code, real), ans in zip(rows, answers):
+        try:
+            want = unhexs(ans)
+        except ValueError:
+            want = ans
+        if real != want:
+            probs.append("Tube.set_paging(True, 7), writer %s, field %r: file %r, model %r" % (code, name, real, want))
+    shared = {(n, c): r for n, c, r in rows}
+    return probs, len(rows), shared[("x", "a")] == shared[("x ", "ab")]
 
 
 def compare(ref, out):
@@ -769,7 +901,7 @@ def run(ctx):
                        "a task function is a pure function of its pickled argument (fork/dill)",
                        "a paged (np.memmap) dictionary entry and an in-memory one are the same abstract value in the model"]
     thm_ok = common.lean_stage(ctx, [("SrProps.C08", "SrProps/C08.lean", "SrProps.C08")])
-    drv = common.LeanDriver(["SrModel.Pool"])
+    drv = common.LeanDriver(PAGE_MODS)
     mods()
 
     lines, checks = [], []     # model requests and what to compare them with
@@ -791,6 +923,7 @@ def run(ctx):
     unexpected_errors = []
     n_compared = 0
     dispatch_real = []
+    page_bad, n_page_recv, n_page_triples = [], 0, 0
     for desc in receivers(ctx):
         kindm = desc["material"]
         base_cfg = {"nthreads": 1, "progress": False, "page": False}
@@ -820,6 +953,19 @@ def run(ctx):
                     desc["name"], st, "identical" if not dp else "DIFFERS"))
             if refp["paged_types"] and "memmap" not in refp["paged_types"]:
                 dp.append(("thermal", "paging requested but no np.memmap in the tubes: %s" % refp["paged_types"]))
+            # the files of the paged run: names as in the model, one file per (tube, dictionary, field)
+            pprobs, ntr = page_check(desc, refp, drv)
+            n_page_recv += 1
+            n_page_triples += ntr
+            ctx.case((describe(desc), "page-files"), nontrivial=ntr > 0 and len(desc["panels"]) > 1,
+                     tag="%s/paging file names/%s" % (desc["name"], "as in the model" if not pprobs else "WRONG"),
+                     sample={"receiver": describe(desc), "panel_sizes": [len(p["tubes"]) for p in desc["panels"]],
+                             "arrays": ntr, "files": (refp.get("page_files") or [])[:6]})
+            if pprobs:
+                page_bad.append((describe(desc), pprobs))
+                viol.append(("%s, paged in-process run: %s" % (describe(desc), pprobs[0]),
+                             {"desc": desc, "cfg": {"nthreads": 1, "progress": False, "page": True}, "page_files_check": True,
+                              "reference_vs_paged_reference": True, "all": pprobs[:8]}, PAGE_SIG))
         if dp:
             viol.append(("%s: paged in-process run differs from the in-memory one: %s: %s" % (describe(desc), dp[0][0], dp[0][1]),
                          {"desc": desc, "cfg": {"nthreads": 1, "progress": False, "page": True}, "reference_vs_paged_reference": True,
@@ -960,6 +1106,15 @@ def run(ctx):
             viol.append(("multiprocess.Pool.%s returned results out of submission order: %s" % (obs[-1]["api"], vals),
                          {"pool_observation": obs[-1]}, "c08:pool-order"))
 
+    # ---- both writers of every dictionary on a stand-alone paged tube ---------------------------------
+    wprobs, nprobe_arrays, axial_shared = writer_probe(drv)
+    ctx.case(("page-writers",), nontrivial=True, tag="paging file names/writer probe/%s" % ("as in the model" if not wprobs else "WRONG"))
+    if wprobs:
+        page_bad.append(("stand-alone tube", wprobs))
+        viol.append(("paging file names of a stand-alone tube: %s" % wprobs[0], {"page_writer_probe": True, "all": wprobs[:8]}, PAGE_SIG))
+    ctx.notes.append("paging: add_axial_results('x') and add_blank_axial_results('x ') open the same file on the real Tube: %s "
+                     "(the model's only exception, theorem page_file_collision; no shipped code names a field with a trailing space)" % axial_shared)
+
     # ---- ask the model ----------------------------------------------------------------------------
     answers = drv.ask(lines)
     mism = []
@@ -974,13 +1129,18 @@ def run(ctx):
                    "assignments), Tube.copy_results == Pool.copyResults, real pool runs == Pool.gather on the observed "
                    "completion order, Pool.map default chunk == Pool.mapChunk" % ndisp,
                    not mism, "%d mismatches of %d; first: %s" % (len(mism), len(checks), mism[:1]))
+    ctx.obligation("correspondence: paging file names == model; distinct triples have distinct files (paged in-process run of "
+                   "%d receivers, %d arrays: files left in the working directory == SrModel.PageNames over all (tube, "
+                   "dictionary, field), file behind every array == model, no file behind two arrays; both writers x %d "
+                   "field names on a stand-alone tube)" % (n_page_recv, n_page_triples, len(PROBE_NAMES)),
+                   not page_bad and n_page_recv > 0, "%d receivers with problems; first: %s" % (len(page_bad), [(d, p[:2]) for d, p in page_bad[:1]]))
     ctx.obligation("both dispatch branches exercised by full runs (sequential/edge-parallel and sub-problem pool)",
                    all(any(x != "probe" for x in branches_hit.get(b, ())) for b in ("sequential", "parallel")),
                    str({k: sorted(v) for k, v in branches_hit.items()}))
     ctx.obligation("property predicate: every stage x configuration that completes is bit-identical to the in-process "
                    "reference (all tube arrays, life, reliabilities); paged in-process == in-memory",
                    not differs, "%d stage results compared; %d differ; first: %s" % (n_compared, len(differs), [v[0] for v in differs[:1]]))
-    others = [v for v in viol if v not in differs]
+    others = [v for v in viol if v not in differs and v[2] != PAGE_SIG]
     ctx.obligation("property predicate: no stage raises for any configuration (paging x pool = F24 reported separately); "
                    "RJ installs edge k's state on edge k; branch report and nthreads hand-over consistent",
                    not others, "%d problems; first: %s" % (len(others), [v[0] for v in others[:1]]))
@@ -1038,6 +1198,12 @@ def replay(obj):
             print("  FAILS:", b)
         print("property holds on this input" if not bad else "property violated on this input")
         return 1 if bad else 0
+    if r.get("page_writer_probe"):
+        probs, n, shared = writer_probe(common.LeanDriver(PAGE_MODS))
+        for b in probs:
+            print("  FAILS:", b)
+        print("property holds on this input" if not probs else "property violated on this input")
+        return 1 if probs else 0
     if "desc" not in r:
         print("replay names no input:", r)
         return 1
@@ -1053,10 +1219,16 @@ def replay(obj):
     raised = [s for s in out["stages"].values() if s.startswith("raised")]
     for s in raised:
         print("  FAILS:", s)
+    pprobs = []
+    if r.get("page_files_check"):
+        pprobs, ntr = page_check(desc, out, common.LeanDriver(PAGE_MODS))
+        print("paging files:", out.get("page_files"))
+        for b in pprobs[:20]:
+            print("  FAILS [paging files]:", b)
     outcome = [st for st in ref["stages"] if (ref["stages"][st] == "ok") != (out["stages"].get(st) == "ok")]
     for st in outcome:
         print("  FAILS: stage %s ends with %r in the in-process run and with %r under %s" % (st, ref["stages"][st], out["stages"].get(st), cfg_name(cfg)))
-    bad = bool(diffs or raised or outcome)
+    bad = bool(diffs or raised or outcome or pprobs)
     print("property holds on this input" if not bad else "property violated on this input")
     return 1 if bad else 0
 
